@@ -264,6 +264,22 @@ fn calculate_selection<'a>(
         }
     }
 
+    calculate_fields(context, selection_set, struct_id, type_id, options);
+}
+
+/// The members of the struct `struct_id` contributed by `selection_set`: its
+/// fields and the fragments spread on the type itself.
+fn calculate_fields<'a>(
+    context: &mut ExpandedSelection<'a>,
+    selection_set: &[SelectionId],
+    struct_id: ResponseTypeId,
+    type_id: TypeId,
+    options: &'a GraphQLClientCodegenOptions,
+) {
+    // An object has no variants: every fragment that validation accepted under
+    // it applies unconditionally.
+    let on_object = matches!(type_id, TypeId::Object(_));
+
     for id in selection_set {
         let selection = context.query.query.get_selection(*id);
 
@@ -335,7 +351,19 @@ fn calculate_selection<'a>(
                 };
             }
             Selection::Typename => (),
-            Selection::InlineFragment(_inline) => (),
+            Selection::InlineFragment(_inline) => {
+                // On a union or an interface this is one of the `on` variants.
+                // On an object its fields are fields of the struct itself.
+                if on_object {
+                    calculate_fields(
+                        context,
+                        selection.subselection(),
+                        struct_id,
+                        type_id,
+                        options,
+                    );
+                }
+            }
             Selection::FragmentSpread(fragment_id) => {
                 // Here we only render fragments that are directly on the type
                 // itself, and not on one of its variants.
@@ -346,7 +374,7 @@ fn calculate_selection<'a>(
                 // is either on the field's type itself, or on one of the
                 // variants (union or interfaces). If it's not directly a field
                 // on the struct, it will be handled in the `on` variants.
-                if fragment.on != type_id {
+                if fragment.on != type_id && !on_object {
                     continue;
                 }
 
